@@ -424,4 +424,85 @@ def bvOf (p : Nat) (beta : α) (u h0 h1 : Nat → α) : α := beta + sumRange 0 
 
 end uc
 
+/-! ## the cross map (`core/util/array.py`: `triuix`, `triudix`; `_calc_xmap`) and the loop of `_calc_uc` -/
+
+/-- the recursion `recurse(l, n, k)` of `triuix` (`strict = false`: `st = l[-1]`) and `triudix` (`strict = true`:
+    `st = l[-1] + 1`), `st = 0` for the empty prefix: the suffixes of length `k` that may follow a prefix whose next admissible
+    index is `st`, in the order they are yielded.  (`k ≥ 1` in every use: `nparent ∈ {2, 3, 4}`.) -/
+def triuAux (strict : Bool) (n : Nat) : Nat → Nat → List (List Nat)
+  | 0, _ => [[]]
+  | k+1, st => (List.range' st (n - st)).flatMap
+      (fun i => (triuAux strict n k (if strict then i + 1 else i)).map (fun l => i :: l))
+
+/-- `list(triuix(n, k))`: index tuples of the upper triangle, diagonal included -/
+def triuix (n k : Nat) : List (List Nat) := triuAux false n k 0
+/-- `list(triudix(n, k))`: index tuples of the upper triangle, diagonal excluded -/
+def triudix (n k : Nat) : List (List Nat) := triuAux true n k 0
+
+/-- `_calc_xmap(ntaxa, nparent, unique_parents)` -/
+def calcXmap (ntaxa nparent : Nat) (unique : Bool) : List (List Nat) :=
+  if unique then triudix ntaxa nparent else triuix ntaxa nparent
+
+section ucmat
+variable {α : Type} [Add α] [Mul α] [Zero α]
+
+/-- `_calc_uc`: `for i, cconfig in enumerate(xmap): uc[i,:] = epgc.dot(bvmat[cconfig,:]) + intensity * sqrt(vmat[tuple(cconfig)])`
+    — one row per configuration of the cross map (ANY list of index tuples), one column per trait.
+    `bv k t` = breeding value of taxon `k` for trait `t`, `pvar cfg t` = the variance-matrix cell of configuration `cfg`. -/
+def ucMat (sqrt : α → α) (inten : α) (epgc : List α) (bv : Nat → Nat → α) (pvar : List Nat → Nat → α) (ntrait : Nat)
+    (xmap : List (List Nat)) : List (List α) :=
+  xmap.map (fun cfg => (List.range ntrait).map (fun t =>
+    ucVal sqrt (pmean epgc (cfg.map (fun k => bv k t))) inten (pvar cfg t)))
+
+end ucmat
+
+/-! ## binary64 witness for finding D37
+
+Three completely linked markers (`D1 ≡ 1`) with effects 0.7, -0.4, -0.3, parents differing at all three, chunk size 2: the
+blocks `[0,2) × [0,2)`, `[0,2) × [2,3)`, `[2,3) × [0,2)`, `[2,3) × [2,3)` of `(reffect @ D1 * ceffect).sum(1)` accumulated with
+`+=` in the order of the loops.  In exact arithmetic the value is `(u0 + u1 + u2)² ≥ 0`. -/
+def negVarWitness : Float :=
+  let u0 : Float := 0.7
+  let u1 : Float := -0.4
+  let u2 : Float := -0.3
+  let b00 := (u0 + u1) * u0 + (u0 + u1) * u1
+  let b01 := (u0 + u1) * u2
+  let b10 := u2 * u0 + u2 * u1
+  let b11 := u2 * u2
+  ((b00 + b01) + b10) + b11
+
+/-! ## the loops of the genic `from_algmod`, literally: `numpy.empty`, then `M[f,m] = v; M[m,f] = v` for `m ≤ f` -/
+section genicLoop
+variable {β : Type} {ι : Type} [DecidableEq ι]
+
+/-- `M[ix]` of an array allocated with `numpy.empty`: `none` = never written (arbitrary memory) -/
+def findAt (M : List (ι × β)) (ix : ι) : Option β :=
+  match M with
+  | [] => none
+  | p :: rest => if p.1 = ix then some p.2 else findAt rest ix
+
+/-- `for female in range(0,n): for male in range(0,female+1): v = cell(female, male); M[female,male] = v; M[male,female] = v` -/
+def fillSymLoop (n : Nat) (cell : Nat → Nat → β) : List ((Nat × Nat) × β) :=
+  (lowerPairsDiag n).foldl
+    (fun M fm => setAt (setAt M (fm.1, fm.2) (cell fm.1 fm.2)) (fm.2, fm.1) (cell fm.1 fm.2)) []
+
+end genicLoop
+
+section genicLoops
+variable {α : Type} [Add α] [Sub α] [Mul α] [Div α] [Zero α] [One α]
+
+/-- two-way / dihybrid genic `from_algmod` for trait `t` -/
+def Setup.genic2Loop (S : Setup α) (n nvrnt : Nat) (ploidy : α) (t : Nat) : List ((Nat × Nat) × α) :=
+  fillSymLoop n (fun f m => genicCell nvrnt ploidy (fun i => S.u i t) (crossFreq2 S ploidy f m))
+
+/-- three-way genic `from_algmod`, slice of the recurrent parent `r` -/
+def Setup.genic3Loop (S : Setup α) (n nvrnt : Nat) (ploidy : α) (r t : Nat) : List ((Nat × Nat) × α) :=
+  fillSymLoop n (fun f m => genicCell nvrnt ploidy (fun i => S.u i t) (crossFreq3 S ploidy r f m))
+
+/-- four-way genic `from_algmod`, slice of the first hybrid `(f2, m2)` -/
+def Setup.genic4Loop (S : Setup α) (n nvrnt : Nat) (ploidy : α) (f2 m2 t : Nat) : List ((Nat × Nat) × α) :=
+  fillSymLoop n (fun f m => genicCell nvrnt ploidy (fun i => S.u i t) (crossFreq4 S ploidy f2 m2 f m))
+
+end genicLoops
+
 end Variance
